@@ -25,7 +25,13 @@ Steps of one run
      spec drift -> NONCONFORMANCE (exit 2).
 
 No defect expected or found: the check guards regressions.
-Mutation self-test: see the end of this docstring (filled in after the run).
+Self-tests run on 2026-09-22 (private snapshot copy of /repo, patches in seeded/remote/):
+  * send_to_actor's SendError path drops the joined actor's leftover messages (DESIGN §12) -> VIOLATION
+    {kind: restart_mismatch, event: start}: the restarted actor reports 1 initial message where the model has leftover + 1;
+  * the historical bug re-introduced (on SendError start a new actor without joining the old task) -> VIOLATION
+    {kind: restart_mismatch, event: remove}, first on the replay of poll_cleanup_preserves_restarted_sender: the later
+    cleanup() removes the fresh sender, which no spec behaviour explains;
+  * reverted -> exit 0 (105 event logs accepted).
 """
 import json
 import random
